@@ -146,8 +146,17 @@ def o6(tier):
     return memobs.save_group_refusal(tier, 'O6', 'O6')
 
 
+def o7(tier):
+    """the stored relay set (and every other mirrored text / blob field) is read back as written"""
+    from props import C10
+    r = C10.o8(tier)
+    r.oid = 'O7'
+    r.title = 'SQLite (shared with C10-O8): the group record, its relay set and its secrets are stored through lossless conversions only, so the stored copy mirrors the MLS extension value for value -- ' + r.title[:160]
+    return r
+
+
 def run(tier, seed, only=None):
-    obs = [('O1', o1), ('O2', o2), ('O3', o3), ('O4', o4), ('O5', o5), ('O6', o6)]
+    obs = [('O1', o1), ('O2', o2), ('O3', o3), ('O4', o4), ('O5', o5), ('O6', o6), ('O7', o7)]
     out = []
     for k, f in obs:
         if only and k not in only:
